@@ -631,6 +631,7 @@ SEED_OPS = [
     ("opt_proto_recv", "String?.prototype.substring(1)"), ("opt_proto_member", "o.x?.prototype.trim()"),
     ("opt_call_member_callee", "o?.x.y?.(a).trim()"), ("pluseq_computed_sum", "o[a + b] += c"),
     ("apply_surplus_array", "String.prototype.concat.apply(a, [b], [c], d)"),
+    ("lit_recv_pad_end", "'lit'.padEnd(a, b) + a.padEnd(3)"), ("lit_recv_replace_all", "'lit'.replaceAll(a, 'b') + 'lit'.replaceAll('x', 'y')"),
     ("delete_optchain", "delete a?.b.substring(1).x"), ("delete_computed", "delete o[a + b]"),
     ("path_call_computed", "o[f()].substring.call(g(), 1)"), ("path_apply_computed", "o[f()].x.concat.apply(g(), [b])"),
     ("tpl_marker_line", "a + `\n//# sourceMappingURL=${b}`"), ("str_marker_line", "a.concat('\\\n//# sourceMappingURL=x.map')"),
